@@ -64,16 +64,18 @@ def main():
     args = [a for a in sys.argv[1:] if not a.startswith("--")]
     jobs = 4
     only = None
+    skip = None
     for i, a in enumerate(sys.argv):
         if a == "--jobs": jobs = int(sys.argv[i + 1])
         if a == "--only": only = sys.argv[i + 1]
-    args = [a for a in args if a not in (str(jobs), only)]
+        if a == "--skip": skip = sys.argv[i + 1]
+    args = [a for a in args if a not in (str(jobs), only, skip)]
     root = os.path.join(V, "mutants")
     todo = []
     for pid in sorted(os.listdir(root)):
         if args and pid not in args: continue
         for f in sorted(os.listdir(os.path.join(root, pid))):
-            if f.endswith(".patch") and (only is None or only in f):
+            if f.endswith(".patch") and (only is None or only in f) and (skip is None or skip not in f):
                 todo.append((pid, os.path.join(root, pid, f)))
     bad = 0
     with ThreadPoolExecutor(max_workers=jobs) as ex:
